@@ -70,6 +70,8 @@ class Prop(SeqProp):
                  "FilePool whose body closed two of the handles itself"),
             Case(["new", "create 0", "create 0", "create 0", "remove 0 1", "create 0", "exit"], {"mp": False, "enter_at": 3, "reenter_at": 5},
                  "pool used before its context is entered, entered once more by a helper"),
+            Case(["new", "create 0", "create 0", "create 0", "fork 0", "create 1", "exit"], {"mp": True, "enter_at": 3},
+                 "D21: multi_proc pool used before its context is entered"),
             Case(["new", "create 0", "create 0", "remove 0 0", "create 0", "exit"], {"mp": False, "foreign": True},
                  "pool constructed in one process, with-block in a forked child"),
             Case(["new", "create 0", "fork 0", "create 1", "flush 1", "create 1", "create 0", "raise"], {"mp": True, "foreign": True},
@@ -115,6 +117,12 @@ class Prop(SeqProp):
                     ops.append(f"create {pid}"); created += 1
             ops.append(rng.choice(["exit", "raise"]))
             meta = {"mp": mp_case}
+            first_fork = next((i for i, o in enumerate(ops) if o.startswith("fork")), len(ops))
+            hi = min(first_fork, len(ops) - 2)
+            if mp_case and rng.random() < 0.25 and hi >= 2:
+                # the same for a multi_proc pool, as long as no child exists yet: the pool object is used (create / remove /
+                # flush work without a context) and the context is entered afterwards
+                meta["enter_at"] = rng.randint(2, hi)
             if not mp_case and rng.random() < 0.2:
                 # a single-process pool works without a context too: the object is used first and its context is entered
                 # later (`pool = TmpPool(d); pool.create(); with pool: …`), or a helper that got the pool wraps its own work
@@ -224,7 +232,7 @@ class Prop(SeqProp):
                 by["late"] = "left"
             return None
 
-        enter_at = 0 if (mp_mode or pre is not None) else int(case.meta.get("enter_at", 0))
+        enter_at = 0 if pre is not None else int(case.meta.get("enter_at", 0))
         reenter_at = None if (mp_mode or pre is not None) else case.meta.get("reenter_at")
         try:
             for op_i, op in enumerate(case.ops):
